@@ -27,6 +27,7 @@ func init() {
 	areas["c04"] = runC04
 	areas["c04-writer"] = runC04Writer
 	areas["c04-verify"] = runC04Verify
+	areas["c04-resume"] = runC04Resume
 }
 
 type c04Meta struct {
@@ -232,6 +233,57 @@ func runC04Verify(cfg *config) error {
 	return werr
 }
 
+// reopen the file in DIR, send the requests of script.json from index "from" on, dump everything
+func runC04Resume(cfg *config) error {
+	log.SetOutput(io.Discard)
+	dir := cfg.out
+	res := c04Verify{}
+	func() {
+		var s sScript
+		b, err := os.ReadFile(filepath.Join(dir, "script.json"))
+		if err != nil || json.Unmarshal(b, &s) != nil {
+			res.Err = "script unreadable"
+			return
+		}
+		from := 0
+		if b, err := os.ReadFile(filepath.Join(dir, "resume-from")); err == nil {
+			fmt.Sscan(string(b), &from)
+		}
+		in, err := startInstance(dir, storeRootID)
+		if err != nil {
+			res.Err = "reopen: " + err.Error()
+			return
+		}
+		defer in.stop()
+		nc, err := nats.Connect(in.url, nats.Timeout(10*time.Second))
+		if err != nil {
+			res.Err = err.Error()
+			return
+		}
+		defer nc.Close()
+		for i := from; i < len(s.Ops); i++ {
+			if rc, err := c20Request(nc, s.Ops[i]); rc != 0 {
+				res.Err = fmt.Sprintf("request %d after the recovery: rc=%d %v", i, rc, err)
+				return
+			}
+		}
+		ids, err := c04Ids(nc, s.Nodes)
+		if err != nil {
+			res.Err = err.Error()
+			return
+		}
+		res.Views, res.Root, err = storeDump(nc, ids)
+		if err != nil {
+			res.Err = err.Error()
+			return
+		}
+		res.OK = true
+	}()
+	b, _ := json.Marshal(res)
+	_, werr := os.Stdout.Write(append(b, '\n'))
+	return werr
+}
+
 type c04Case struct {
 	ID       int      `json:"id"`
 	Script   int      `json:"script"`
@@ -254,6 +306,10 @@ type c04Case struct {
 	OneRoot  bool     `json:"one_root"`
 	UUIDRoot bool     `json:"uuid_root,omitempty"`
 	Key      string   `json:"key"`
+	// after the recovery the client carries on: the requests from the first unacknowledged one are sent (again)
+	Resumed   bool    `json:"resumed"`
+	RootFinal string  `json:"root_final"`
+	Final     []sView `json:"final"`
 }
 
 func (c *c04Case) val() string {
@@ -262,7 +318,8 @@ func (c *c04Case) val() string {
 		ops[i] = c20OpVal(op)
 	}
 	return vL(vBool(c.HasInit), vS(c.Root), c20ViewsVal(c.Init), vL(ops...), vI(c.Acked), vBool(c.ReopenOK),
-		vS(c.RootAft), c20ViewsVal(c.After), vBool(c.Reopen2), vBool(c.KeySame), vBool(c.OneMeta), vBool(c.OneRoot))
+		vS(c.RootAft), c20ViewsVal(c.After), vBool(c.Reopen2), vBool(c.KeySame), vBool(c.OneMeta), vBool(c.OneRoot),
+		vBool(c.Resumed), vS(c.RootFinal), c20ViewsVal(c.Final))
 }
 
 // a script of accepted writes: node points, new edges, a mirror, edge points, a stale write
@@ -395,6 +452,17 @@ func c04RunOne(exe string, s *sScript, when int, killMs int) *c04Case {
 		b1, _ := json.Marshal([]any{v1.Root, v1.Views, v1.Meta})
 		b2, _ := json.Marshal([]any{v2.Root, v2.Views, v2.Meta})
 		c.Reopen2 = bytes.Equal(b1, b2)
+	}
+	if c.HasInit && s.Kind != "uuid-root" {
+		_ = os.WriteFile(filepath.Join(dir, "resume-from"), []byte(fmt.Sprint(c.Acked)), 0o644)
+		if out, err := exec.Command(exe, "c04-resume", "-out", dir).Output(); err == nil {
+			var v c04Verify
+			if json.Unmarshal(bytes.TrimSpace(out), &v) == nil && v.OK {
+				c.Resumed, c.RootFinal, c.Final = true, v.Root, v.Views
+			} else if c.Err == "" {
+				c.Err = "resume: " + v.Err
+			}
+		}
 	}
 	return c
 }
